@@ -105,3 +105,10 @@ func loopVarI64(name string) int64
 // cutActive reports whether cutLoop takes effect (symbolic exploration under gosym); false
 // natively and in the executor's concrete replay mode, where loops run from their real start.
 func cutActive() bool
+
+// streamSeed returns the seed the PRNG of r was last initialised with (under gosym only).
+func streamSeed(r *randomBitStream) uint64
+
+// loopFrameValue returns, inside pre()/post() of a cut loop, the first value in the loop's
+// frame whose type prints as typ (e.g. "*pgregory.net/rapid.randomBitStream").
+func loopFrameValue(typ string) any
